@@ -45,8 +45,7 @@ TInit == Init /\ l = 2 /\ cx = Tr[2] /\ stopping = FALSE /\ TLCSet(1, 0)
 ErrClass(e) == IF e = 0 THEN 0 ELSE IF e = ECANCELED THEN 2 ELSE 1
 
 (* ------------------------------ chunk look-ahead ------------------------------ *)
-RECURSIVE PendingInv(_)
-PendingInv(q) == IF q = <<>> THEN 0 ELSE Len(q[1].inv) + PendingInv(Tail(q))
+PendingInv(q) == Len(q) + Cardinality({i \in 1 .. Len(q) : Len(q[i].inv) = 2})
 \* deliveries of operation o posted so far (run or waiting on op_q)
 Posted(o) == Len(hist[o]) + PendingInv(opq[o])
 TraceK(o, m) ==
@@ -76,7 +75,7 @@ TReset ==
   /\ clq' = "held" /\ cleanupRuns' = 0
   /\ kin' = KinOf(Rcd)
   /\ kout' = [content |-> <<>>, pread |-> 0, hup |-> FALSE]
-  /\ hist' = [o \in Ops |-> <<>>]
+  /\ hist' = [o \in Ops |-> <<>>] /\ dcat' = [o \in Ops |-> <<>>]
   /\ consumed' = [o \in Ops |-> <<>>] /\ written' = [o \in Ops |-> <<>>]
   /\ sched' = <<>>
 
@@ -125,7 +124,7 @@ TPeerUnwrite ==   \* the (atomic) write of that piece did not take place
   /\ Ev("PeerUnwrite") /\ Consume
   /\ kin.wpos - Rcd.k >= kin.rpos
   /\ kin' = [kin EXCEPT !.wpos = @ - Rcd.k]
-  /\ UNCHANGED <<cvars, chvars, chq, bq, bqSusp, stvars, libvars, bars, clvars, kout, hist, gvars, sched>>
+  /\ UNCHANGED <<cvars, chvars, chq, bq, bqSusp, stvars, libvars, bars, clvars, kout, hvars, gvars, sched>>
 TPeerClose == Ev("PeerClose") /\ Consume /\ PeerClose
 TPeerRead == Ev("PeerRead") /\ Consume /\ PeerRead(Rcd.k)
 TPeerHup == Ev("PeerHup") /\ Consume /\ PeerHup
@@ -137,12 +136,14 @@ TSilent ==
      \/ \E d \in Dirs : SqSenq(d) \/ SqCleanup(d) \/ SqPerform(d, TraceK) \/ SqFinish(d) \/ SourceFire(d)
      \/ CloseQRun \/ ChannelDispose
 
-TNext == \/ TReset
+\* depth-first search explores the LAST disjunct's successors first: consuming a record is
+\* preferred to running the library ahead
+TNext == \/ TSilent
+         \/ TReset
          \/ TSetLow \/ TSetHigh \/ TRead \/ TWrite \/ TBarrier \/ TClose \/ TRelease
          \/ TStopCall \/ TStopEffect \/ TStopRet
          \/ TH \/ THEnd \/ TBarStart \/ TBarEnd \/ TCleanup \/ TExecEnd
          \/ TPeerWrite \/ TPeerUnwrite \/ TPeerClose \/ TPeerRead \/ TPeerHup
-         \/ TSilent
 
 TSpec == TInit /\ [][TNext]_tvars
 
